@@ -127,7 +127,7 @@ Proof.
       rewrite A2. destruct (find_uni_in _ _ _ Ef) as [_ ->]. reflexivity.
     + repeat split; try assumption. left; reflexivity.
   - destruct (find_uni _ _); cbn; repeat split; try assumption; left; reflexivity.
-  - destruct (find_uni _ _); destruct on; cbn; repeat split; try assumption; left; reflexivity.
+  - destruct on; destruct (find_uni _ _); cbn; repeat split; try assumption; left; reflexivity.
   - destruct (find_uni _ _); cbn; repeat split; try assumption; left; reflexivity.
   - destruct (find_uni _ _); cbn; repeat split; try assumption; left; reflexivity.
   - destruct (find_uni _ _); cbn; repeat split; try assumption; left; reflexivity.
